@@ -63,7 +63,13 @@ class Range:
         end = (self.next >= self.stop) if self.step >= 0 else (self.next <= self.stop)
         if end:
             return nothing()
-        return some((self.next, Range(self.next + self.step, self.stop, self.step)))
+        # `next + step` wraps around at +-2^63.  A wrapped sum lies on the wrong side of
+        # `next`; the sequence is exhausted then, so park the iterator at `stop`.
+        nxt = self.next + self.step
+        wrapped = (nxt < self.next) if self.step >= 0 else (nxt > self.next)
+        if wrapped:
+            nxt = self.stop
+        return some((self.next, Range(nxt, self.stop, self.step)))
 
 
 @guppy
